@@ -733,16 +733,26 @@ func (b *realBackend) Close() {
 	b.srv.Close()
 }
 
-// scriptedBackend: a server that keeps sessions and subscriptions across a
-// dropped connection and answers a PublishRequest on whatever connection it
-// arrives (what the specification asks of a server).
+// scriptedBackend: a server that keeps subscriptions (and, for kind
+// "cut-scripted", the session) across a dropped connection and answers a
+// PublishRequest on whatever connection it arrives — what the specification asks
+// of a server.  It keeps track of subscriptions and monitored items: a data change
+// is only published for an item that exists on the server.  With kind
+// "session-scripted" the fault also invalidates the session (ActivateSession of the
+// old session fails, the subscriptions outlive it, TransferSubscriptions is not
+// supported): the client has to recreate the subscriptions, which are still alive
+// on the server when it deletes them.
 type scriptedBackend struct {
-	srv     *xsubs.Scripted
-	mu      sync.Mutex
-	held    []heldPub
-	after   int
-	faulted bool
-	seq     map[uint32]uint32
+	srv          *xsubs.Scripted
+	mu           sync.Mutex
+	held         []heldPub
+	after        int
+	faulted      bool
+	seq          map[uint32]uint32
+	subs         map[uint32]map[uint32]bool // subscription id → client handles of its items
+	nextSub      uint32
+	nextItem     uint32
+	sessionValid bool
 }
 
 type heldPub struct {
@@ -752,16 +762,56 @@ type heldPub struct {
 }
 
 func newScriptedBackend() (*scriptedBackend, error) {
-	b := &scriptedBackend{seq: map[uint32]uint32{}}
+	b := &scriptedBackend{seq: map[uint32]uint32{}, subs: map[uint32]map[uint32]bool{}, sessionValid: true}
 	srv, err := xsubs.StartScripted(func(s *xsubs.Scripted, c *xsubs.SConn, reqID uint32, r ua.Request) ua.Response {
-		if _, ok := r.(*ua.PublishRequest); ok {
-			b.mu.Lock()
+		b.mu.Lock()
+		defer b.mu.Unlock()
+		switch req := r.(type) {
+		case *ua.PublishRequest:
 			b.held = append(b.held, heldPub{c, reqID, r})
 			if b.faulted {
 				b.after++
 			}
-			b.mu.Unlock()
 			return nil
+		case *ua.CreateSessionRequest:
+			b.sessionValid = true
+		case *ua.ActivateSessionRequest:
+			if !b.sessionValid {
+				return xsubs.Fault(r, ua.StatusBadSessionIDInvalid)
+			}
+		case *ua.CreateSubscriptionRequest:
+			b.nextSub++
+			b.subs[b.nextSub] = map[uint32]bool{}
+			return &ua.CreateSubscriptionResponse{
+				ResponseHeader:            xsubs.Hdr(r, ua.StatusOK),
+				SubscriptionID:            b.nextSub,
+				RevisedPublishingInterval: req.RequestedPublishingInterval,
+				RevisedLifetimeCount:      req.RequestedLifetimeCount,
+				RevisedMaxKeepAliveCount:  req.RequestedMaxKeepAliveCount,
+			}
+		case *ua.CreateMonitoredItemsRequest:
+			res := make([]*ua.MonitoredItemCreateResult, len(req.ItemsToCreate))
+			for i, it := range req.ItemsToCreate {
+				if items, ok := b.subs[req.SubscriptionID]; ok {
+					b.nextItem++
+					items[it.RequestedParameters.ClientHandle] = true
+					res[i] = &ua.MonitoredItemCreateResult{StatusCode: ua.StatusOK, MonitoredItemID: b.nextItem, RevisedQueueSize: 1, FilterResult: ua.NewExtensionObject(nil)}
+				} else {
+					res[i] = &ua.MonitoredItemCreateResult{StatusCode: ua.StatusBadSubscriptionIDInvalid, FilterResult: ua.NewExtensionObject(nil)}
+				}
+			}
+			return &ua.CreateMonitoredItemsResponse{ResponseHeader: xsubs.Hdr(r, ua.StatusOK), Results: res, DiagnosticInfos: []*ua.DiagnosticInfo{}}
+		case *ua.DeleteSubscriptionsRequest:
+			res := make([]ua.StatusCode, len(req.SubscriptionIDs))
+			for i, id := range req.SubscriptionIDs {
+				if _, ok := b.subs[id]; ok {
+					delete(b.subs, id)
+					res[i] = ua.StatusOK
+				} else {
+					res[i] = ua.StatusBadSubscriptionIDInvalid
+				}
+			}
+			return &ua.DeleteSubscriptionsResponse{ResponseHeader: xsubs.Hdr(r, ua.StatusOK), Results: res, DiagnosticInfos: []*ua.DiagnosticInfo{}}
 		}
 		return s.Default(r)
 	})
@@ -777,11 +827,15 @@ func (b *scriptedBackend) NodeID(v int) *ua.NodeID {
 	return ua.NewStringNodeID(2, fmt.Sprintf("v%d", v))
 }
 func (b *scriptedBackend) Change(sub *opcua.Subscription, handle uint32, v int, val int32) error {
-	// wait (briefly) for an outstanding PublishRequest; without one the value
-	// cannot be published and the caller's delivery check fails
+	// the value is only published if the subscription exists on the server and has
+	// an item with that handle, and a PublishRequest is outstanding
+	has := func() bool {
+		items, ok := b.subs[sub.SubscriptionID]
+		return ok && items[handle]
+	}
 	xsubs.WaitFor(1500*time.Millisecond, func() bool { b.mu.Lock(); defer b.mu.Unlock(); return len(b.held) > 0 })
 	b.mu.Lock()
-	if len(b.held) == 0 {
+	if len(b.held) == 0 || !has() {
 		b.mu.Unlock()
 		return nil
 	}
@@ -797,6 +851,9 @@ func (b *scriptedBackend) Fault(kind string) error {
 	b.mu.Lock()
 	b.faulted = true
 	b.held = nil
+	if kind == "session-scripted" {
+		b.sessionValid = false
+	}
 	b.mu.Unlock()
 	b.srv.DropConns()
 	return nil
@@ -815,7 +872,7 @@ func (e *env) scenario(kind string, nsubs, nitems int) *scenResult {
 	nvars := nsubs * nitems
 	var be backend
 	var err error
-	if kind == "cut-scripted" {
+	if kind == "cut-scripted" || kind == "session-scripted" {
 		be, err = newScriptedBackend()
 	} else {
 		be, err = newRealBackend(nvars)
@@ -1094,11 +1151,11 @@ func main() {
 		kind string
 		a, b int
 	}
-	list := []sc{{"cut-scripted", 1, 1}, {"cut-scripted", 2, 2}, {"cut", 1, 1}, {"cut", 2, 2}, {"restart", 1, 2}, {"restart", 5, 1}, {"restart", 2, 1}}
+	list := []sc{{"cut-scripted", 1, 1}, {"cut-scripted", 2, 2}, {"session-scripted", 2, 2}, {"cut", 1, 1}, {"cut", 2, 2}, {"restart", 1, 2}, {"restart", 5, 1}, {"restart", 2, 1}}
 	if o.Thorough() {
 		for i := 0; i < 12; i++ {
-			k := e.rnd.Pick(0, 1, 2)
-			kinds := []string{"cut", "restart", "cut-scripted"}
+			k := e.rnd.Pick(0, 1, 2, 3)
+			kinds := []string{"cut", "restart", "cut-scripted", "session-scripted"}
 			list = append(list, sc{kinds[k], 1 + e.rnd.Intn(3), 1 + e.rnd.Intn(3)})
 		}
 	}
@@ -1128,7 +1185,7 @@ func main() {
 	}
 	for _, b := range []string{"acks:length-mismatch", "acks:matched", "acks:status-o", "acks:status-i", "acks:status-u", "acks:status-x",
 		"notif:keepalive", "notif:data-in-order", "notif:data-gap", "notif:seq-wrap", "notif:unknown-sub",
-		"round:data", "round:keepalive", "round:unknown", "round:timeout", "scenario:cut", "scenario:cut-scripted", "scenario:restart"} {
+		"round:data", "round:keepalive", "round:unknown", "round:timeout", "scenario:cut", "scenario:cut-scripted", "scenario:session-scripted", "scenario:restart"} {
 		if r.Distribution[b] == 0 {
 			r.Unreached = append(r.Unreached, b)
 		}
